@@ -1143,3 +1143,131 @@ def replay(case, pid=None):
     vec = tuple(case["vec"]) if case.get("vec") else None
     hits = [x for x in vs if x["case"]["mode"] == case["mode"] and (vec is None or tuple(x["case"]["vec"] or ()) == vec)]
     return {"violations": [{"sig": x["sig"], "what": x["what"]} for x in (hits or vs)]}
+
+
+# ------------------------------------------------------------------------------------------------ soundness pass (E2 on E7 programs)
+
+MULLIKE = {"mul", "lazy_mul", "lincomb", "scalar_mul", "arr_scale"}
+
+
+def sound_eligible(prog, types):
+    ops = {s[0] for s in prog}
+    if ops & UNSOUND_KNOWN or ops & {"ign_on", "bitlen_up", "val"}:
+        return False
+    if ops & MULLIKE and "F" in types:
+        return False          # fixed-point products rescale through the division gadget (KF-C02-quotient)
+    return True
+
+
+def sound_analyse(prog, p, mode="plain"):
+    from . import e2, witness as W
+    st = {"sound_instances": 0, "sound_undecided": 0, "sound_capped": 0, "sound_nodes": 0, "sound_solutions": 0, "sound_skipped": 0}
+    viols = []
+    ps = prog_str(prog)
+    for vec in vectors(prog, SMALL_DOMAINS):
+        H.R.want_sites = True
+        try:
+            r = execute(prog, vec, mode, keep=True)
+        finally:
+            H.R.want_sites = False
+        if r.status != "ok":
+            st["sound_skipped"] += 1
+            continue
+        if not sound_eligible(prog, r.types):
+            st["sound_skipped"] += 1
+            return st, viols
+        inst = e2.Instance()
+        inst.p, inst.n = p, N_BITS
+        inst.cons = list(H.R.cons)
+        inst.nvars = len(H.R.vars)
+        inst.assignment = {i + 1: v[1] % p for i, v in enumerate(H.R.vars)}
+        # the prover is bound to the inputs only (reuse mode: the inputs are the first variables as well; the dead pass's
+        # own guard is a secret of the program and stays pinned to its value 0)
+        nfix = NIN if mode == "plain" else NIN + 1
+        inst.fixed = {i: inst.assignment[i] for i in range(1, nfix + 1)}
+        inst.sites = list(H.R.sites)
+        inst.wires = [dict(lc.lc.lc) for v in r.regs[NIN:] for lc in H.secrets_in(v)]
+        if not inst.wires:
+            continue
+        inst.honest = [W.eval_lc(w, inst.assignment, p) for w in inst.wires]
+        st["sound_instances"] += 1
+        try:
+            rel = {v for w in inst.wires for v in w if v != 0}
+            sols, undec, s = W.exact(inst.cons, inst.nvars, inst.fixed, p, relevant=rel, honest=inst.assignment)
+        except W.Capped:
+            st["sound_capped"] += 1
+            continue
+        st["sound_nodes"] += s["nodes"]
+        st["sound_solutions"] += len(sols)
+        if undec:
+            st["sound_undecided"] += 1
+            continue
+        for f in e2.classify(inst, sols):
+            if f["klass"] == "undecided-dependent":
+                st["sound_undecided"] += 1
+                continue
+            full = dict(inst.assignment)
+            full.update(f["alt"])
+            if not W.verify(W.reduce_system(inst.cons, p), full, p):
+                st["sound_harness_error"] = st.get("sound_harness_error", 0) + 1
+                continue
+            sig = {"klass": f["klass"], "root_fn": f["root"][1], "root_line": f["root"][2], "attrib": "-", "engine": "xfeat", "ops": [s_[0] for s_ in prog]}
+            if mode != "plain":
+                sig["history"] = mode
+            what = ("cross-feature program [%s] on (x,y,b,f,i)=%s%s: the constraints admit a witness in which the inputs keep their values but "
+                    "result wire #%d %s; first deviating witness variable v%s created at %s:%s `%s`"
+                    % (ps, list(vec), " (after a dead first run on the same objects)" if mode == "reuse" else "", f["wire_index"],
+                       "is unconstrained (free variable)" if f["klass"] == "free-output" else
+                       "= %s instead of %s" % (e2.centered(f.get("got", 0), p), e2.centered(f.get("honest", 0), p)),
+                       f["var"], f["root"][0], f["root"][1], f["root"][2]))
+            viols.append({"sig": sig, "what": what,
+                          "case": {"xfeat": True, "sound": True, "prog": [list(s_) for s_ in prog], "vec": list(vec), "mode": mode, "p": p}})
+            break
+    return st, viols
+
+
+def _sound_task(t):
+    progs, p, modes = t
+    agg, viols = {}, {}
+    for prog in progs:
+        for mode in modes:
+            st, vs = sound_analyse(prog, p, mode)
+            common.merge_counts(agg, st)
+            for x in vs:
+                h = common.sig_hash(x["sig"])
+                if h not in viols:
+                    x["count"] = 1
+                    viols[h] = x
+                else:
+                    viols[h]["count"] += 1
+    return agg, list(viols.values())
+
+
+def sound_sweep(ctx, only=None, modes=("plain",)):
+    """Witness-space enumeration (exact engine, real field) on the cross-feature programs: inputs pinned, every wire of
+    every register must be uniquely determined."""
+    progs = programs(ctx)
+    if only is not None:
+        progs = [pr for pr in progs if only(pr)]
+    per = max(1, len(progs) // (common.NCPU * 8))
+    chunks = [(progs[i:i + per], REC.BN128, modes) for i in range(0, len(progs), per)]
+    results = common.pool_map(_sound_task, chunks, init=_init, initargs=(REC.BN128,), force_fork=True)
+    agg = {}
+    for st, vs in results:
+        common.merge_counts(agg, st)
+        for x in vs:
+            ctx.violations.append({"sig": x["sig"], "case": x["case"], "what": x["what"] + " (x%d)" % x.get("count", 1)})
+    for k, v in agg.items():
+        ctx.add("xfeat_" + k, v)
+    ctx.add("executions", agg.get("sound_instances", 0))
+    ctx.add("instances", agg.get("sound_instances", 0))
+    if agg.get("sound_harness_error"):
+        ctx.harness_errors.append("%d cross-feature counterexamples failed re-verification" % agg["sound_harness_error"])
+    return agg
+
+
+def sound_replay(case):
+    H.bind(case.get("p", REC.BN128))
+    prog = [tuple(s) for s in case["prog"]]
+    st, vs = sound_analyse(prog, case.get("p", REC.BN128), case.get("mode", "plain"))
+    return {"violations": [{"sig": x["sig"], "what": x["what"]} for x in vs]}
